@@ -280,19 +280,26 @@ std::string run_case(Src& s, CaseInfo& ci)
   case 8:
   {  // evaluation stack (configurable)
     uint32_t size = (uint32_t) s.range(4, 64);
-    int shape = (int) s.range(0, 2);
+    int shape = (int) s.range(0, 6);
     // the threshold depth is searched for: it must exist, be exact (monotone) and move by one with the stack size
     auto depth_fails = [&](uint32_t sz, int depth, int* rc_out) {
-      std::string e = "1";
+      // the innermost operand: a constant, or a loop whose iterator pushes its items
+      // on the evaluation stack (integer range, enumeration, array, dictionary, string set)
+      static const char* INNER[] = {"1", "1", "1",
+                                    "math.to_number(for any k, v in tests.string_dict : (v == \"foo\"))",
+                                    "math.to_number(for any v in tests.integer_array : (v == 2))",
+                                    "math.to_number(for any i in (0..3) : (i == 2))",
+                                    "math.to_number(for any of them : ($))"};
+      std::string e = INNER[shape];
       for (int d = 0; d < depth; d++)
-        e = shape == 0 ? "1 + (" + e + ")" : shape == 1 ? "1 | (2 & (" + e + "))" : "uint8(0) + (" + e + ")";
+        e = shape == 1 ? "1 | (2 & (" + e + "))" : shape == 2 ? "uint8(0) + (" + e + ")" : "1 + (" + e + ")";
       ys_set_config(0, sz);
-      Outcome o = compile_scan("rule r { condition: " + e + " >= 0 or true }", "x");
+      Outcome o = compile_scan("import \"math\"\nimport \"tests\"\nrule r { strings: $a = \"x\" condition: " + e + " >= 0 or $a or true }", "x");
       ys_set_config(0, 16384);
       *rc_out = o.nerr ? -100 - o.first_error : o.rc_scan;
       return o.rc_scan == 25;
     };
-    ci.desc = strf("YR_CONFIG_STACK_SIZE=%u, right-nested expression shape %d", size, shape);
+    ci.desc = strf("YR_CONFIG_STACK_SIZE=%u, right-nested expression shape %d (0-2 arithmetic, 3 dictionary loop, 4 array loop, 5 range loop, 6 string-set loop)", size, shape);
     checkpoint(s, ci.desc);
     int first_fail = -1, rc = 0;
     for (int d = 0; d <= (int) size + 4; d++)
@@ -330,7 +337,10 @@ std::string run_case(Src& s, CaseInfo& ci)
   case 9:
   {  // matches per string (1,000,000) - the callback's answer decides
     int action = (int) s.range(0, 2);
-    std::string src = "rule hot { strings: $h = \"\\x1f\" condition: $h }\n"
+    std::string filler = "rule filler { strings:";
+    for (int i = 0; i < 150; i++) filler += strf(" $f%03d = \"zq%03dqz\"", i, i);
+    filler += " condition: any of them }\n";
+    std::string src = filler + "rule hot { strings: $h = \"\\x1f\" condition: $h }\n"
                       "rule other { strings: $a = \"abc\" $b = \"\\x1f\\x1fabc\" condition: #a == 2 and #b == 1 and @a[2] > 1000000 }\n";
     bytes data = "abc" + bytes(1000050, '\x1f') + "abc";
     ci.desc = strf("a string with 1,000,050 matches; callback answers %s to TOO_MANY_MATCHES",
@@ -352,6 +362,33 @@ std::string run_case(Src& s, CaseInfo& ci)
     }
     else if (o.rc_scan != 30)
       failure = ci.desc + strf(": scan returned %d instead of ERROR_TOO_MANY_MATCHES", o.rc_scan);
+    if (failure.empty())
+    {
+      // "after which the library remains usable": the same scanner, next scan - the
+      // string that was muted must be live again
+      Rules R;
+      CompileResult cr = compile_simple(src, R);
+      int e2 = 0;
+      ys_scanner* sc = cr.errors ? nullptr : ys_scanner_new(R.r, &e2);
+      if (sc)
+      {
+        ys_scan_opts so;
+        memset(&so, 0, sizeof so);
+        so.toomany_action = action;
+        char* t1 = nullptr;
+        ys_scan(R.r, sc, (const uint8_t*) data.data(), data.size(), &so, &t1);
+        ys_free(t1);
+        bytes small = bytes("abc\x1f\x1f\x1f", 6);
+        char* t2 = nullptr;
+        int rc2 = ys_scan(R.r, sc, (const uint8_t*) small.data(), small.size(), &so, &t2);
+        std::string tr2 = t2;
+        ys_free(t2);
+        ys_scanner_free(sc);
+        if (rc2 != 0 || tr2.find("M default:hot") == std::string::npos)
+          failure = ci.desc + strf(": the next scan with the same scanner returns %d and %s", rc2,
+                                   tr2.find("M default:hot") == std::string::npos ? "no longer reports the string that hit the limit" : "ok");
+      }
+    }
     at_boundary = true;
     break;
   }
